@@ -5,6 +5,7 @@ package main
 import (
 	"encoding/json"
 	"fmt"
+	"io"
 	"net/http"
 	"net/http/httptest"
 	"strconv"
@@ -580,6 +581,62 @@ func obsList(obs []obsEntry) string {
 	return sb.String()
 }
 
+// rendezvous lets K request bodies block inside Read until all K readers have
+// arrived (or a short scheduling timeout passed): RecordRequest snapshots the
+// body before it touches the log, so slow bodies are a legitimate way to make
+// several RecordRequest calls for one id overlap.
+type rendezvous struct {
+	mu      sync.Mutex
+	need    int
+	arrived int
+	ch      chan struct{}
+}
+
+func newRendezvous(n int) *rendezvous { return &rendezvous{need: n, ch: make(chan struct{})} }
+
+func (rv *rendezvous) arrive() {
+	rv.mu.Lock()
+	rv.arrived++
+	if rv.arrived == rv.need {
+		close(rv.ch)
+	}
+	rv.mu.Unlock()
+	select {
+	case <-rv.ch:
+	case <-time.After(50 * time.Millisecond): // scheduling aid only, never a verdict
+	}
+}
+
+type rvBody struct {
+	rv   *rendezvous
+	data []byte
+	off  int
+	once bool
+}
+
+func (b *rvBody) Read(p []byte) (int, error) {
+	if !b.once {
+		b.once = true
+		b.rv.arrive()
+	}
+	if b.off >= len(b.data) {
+		return 0, io.EOF
+	}
+	n := copy(p, b.data[b.off:])
+	b.off += n
+	return n, nil
+}
+func (b *rvBody) Close() error { return nil }
+
+func newReqBody(id string, mark int, rv *rendezvous) *http.Request {
+	data := []byte("payload-" + strconv.Itoa(mark))
+	req, _ := http.NewRequest("POST", "http://har.example/"+id+"/"+strconv.Itoa(mark), nil)
+	req.Body = &rvBody{rv: rv, data: data}
+	req.ContentLength = int64(len(data))
+	req.Header.Set("Content-Type", "text/plain")
+	return req
+}
+
 type concCase struct {
 	Kind string `json:"kind"` // "conc"
 	Idx  int    `json:"idx"`
@@ -597,11 +654,13 @@ func runConcurrent(r *vh.Run, c concCase, race bool) {
 	shared := []string{"s0", "s1"}
 	viaHTTP := rng.Intn(3) == 0
 	l := har.NewLogger()
-	if rng.Intn(2) == 0 {
+	storm := c.Idx%4 == 3 // every 4th history: all goroutines first record the SAME id with rendezvous bodies
+	if rng.Intn(2) == 0 && !storm {
 		l.SetOption(har.BodyLogging(false), har.PostDataLogging(false))
 	}
-	type plan struct {
-		in cIn
+	var rv *rendezvous
+	if storm {
+		rv = newRendezvous(G)
 	}
 	plans := make([][]cIn, G)
 	for g := 0; g < G; g++ {
@@ -633,6 +692,9 @@ func runConcurrent(r *vh.Run, c concCase, race bool) {
 			default:
 				in = cIn{K: opReset}
 			}
+			if storm && k == 0 {
+				in = cIn{opReq, "s0"}
+			}
 			plans[g] = append(plans[g], in)
 		}
 	}
@@ -649,13 +711,17 @@ func runConcurrent(r *vh.Run, c concCase, race bool) {
 		go func(g int) {
 			defer wg.Done()
 			<-start
-			for _, in := range plans[g] {
+			for k, in := range plans[g] {
 				var out cOut
 				t0 := atomic.AddInt64(&clock, 1)
 				switch in.K {
 				case opReq:
 					m := int(atomic.AddInt64(&mark, 1))
-					out.Err = l.RecordRequest(in.ID, newReq(in.ID, m)) != nil
+					if storm && k == 0 {
+						out.Err = l.RecordRequest(in.ID, newReqBody(in.ID, m, rv)) != nil
+					} else {
+						out.Err = l.RecordRequest(in.ID, newReq(in.ID, m)) != nil
+					}
 				case opRes:
 					m := int(atomic.AddInt64(&mark, 1))
 					if err := l.RecordResponse(in.ID, newRes(newReq(in.ID, 0), m)); err != nil {
@@ -728,7 +794,7 @@ func runConcurrent(r *vh.Run, c concCase, race bool) {
 	}
 	r.Count("overlapping_op_pairs", int64(overlaps))
 	if overlaps > 0 {
-		r.Class(fmt.Sprintf("conc:G=%d:http=%v:overlap=%s", G, viaHTTP, bucket(overlaps)))
+		r.Class(fmt.Sprintf("conc:G=%d:http=%v:storm=%v:overlap=%s", G, viaHTTP, storm, bucket(overlaps)))
 	}
 	if race {
 		// under the race detector the history is still checked, with a shorter timeout
